@@ -326,6 +326,15 @@ def run_recon(case, seed):
             err = np.abs(xv - xt.ravel()).max() / np.abs(xt).max()
             if not err <= 1e-5:
                 V("consistent-data-reproduced", "consistent fully determined data: image error %.3g" % err)
+    # a finished recon asked again gives the same image
+    if not viol:
+        try:
+            xa = np.asarray(app.run()).ravel().astype(complex)
+            if xa.shape != xv.shape or not np.abs(xa - xv).max() <= 1e-10 * max(1.0, float(np.abs(xv).max())):
+                V("second-run-differs", "run() called a second time returned a different image (max diff %.3g)" % (
+                    float(np.abs(xa - xv).max()) if xa.shape == xv.shape else float("inf")))
+        except Exception as e:
+            V("second-run-differs", "run() called a second time raised %s: %s" % (type(e).__name__, str(e)[:100]))
     if y.tobytes() != y0.tobytes():
         V("input-mutated", "k-space array was modified")
     return dict(states=1, transitions=int(getattr(app.alg, "iter", 1)), nontrivial=True,
